@@ -1,6 +1,9 @@
 package main
 
-import "fmt"
+import (
+	"fmt"
+	"strings"
+)
 
 func init() {
 	generators["HIST"] = func(c *Ctx) { genHist(c, "") }
@@ -66,8 +69,18 @@ func directedHistory(c *Ctx) *histBuilder {
 		return nil
 	}
 	names := []string{"cell", "c0", "c1", "c2"}
+	if c.rng.Intn(8) == 0 {
+		// template names that look like the escaper's own mangled names, and a caller that reaches them in the error context
+		odd := pick(c, []string{"x$htmltemplate_StateError", "cell$htmltemplate_StateAttr_DelimDoubleQuote_attrTitle_elementP", "cell$htmltemplate_StateText_elementB"})
+		hb.add(Step{Op: "parse", H: 0, Text: "{{define \"" + odd + "\"}}hello{{.X}}{{end}}{{define \"c2\"}}A{{template \"nope\" .}}B{{template \"x\"}}C{{template \"cell\" .}}{{end}}"})
+		names = append(names, odd, odd)
+	}
 	data := c.randData()
 	useClone := c.rng.Intn(3) == 0
+	if !strings.Contains(text[:strings.Index(text, "{{define \"c0\"}}")], "{{.") && c.rng.Intn(2) == 0 {
+		// a helper of static text only: clones must still get their own copy of its tree
+		useClone = true
+	}
 	if useClone {
 		hb.add(Step{Op: "clone", H: 0, H2: 1})
 	}
